@@ -192,6 +192,9 @@ def parse_stats(path):
     st = {'ops': {}, 'resp': {}, 'samples': [], 'oracle_fail': []}
     for line in open(path):
         k, _, v = line.rstrip('\n').partition('=')
+        if line.startswith(('op:', 'resp:')):
+            # histogram labels may contain '=' themselves: the count follows the LAST one
+            k, _, v = line.rstrip('\n').rpartition('=')
         if k.startswith('op:'):
             st['ops'][k[3:]] = int(v)
         elif k.startswith('resp:'):
@@ -509,4 +512,13 @@ def run_sim(pid, scen, seed, tier, stats, failing, broken):
         broken.append(('correspondence-break', json.dumps(div)[:800]))
 
 if __name__ == '__main__':
-    main()
+    try:
+        main()
+    except SystemExit:
+        raise
+    except BaseException:
+        # an internal error of the checker must never look like a verdict (exit 1 is reserved for violations)
+        import traceback
+        traceback.print_exc()
+        print('INFRASTRUCTURE ERROR: internal error of the checker (see traceback)')
+        sys.exit(2)
